@@ -54,7 +54,8 @@ PROGRAMS = [
 ]
 DATA_FAULTS = ["unsorted", "reversed_range", "empty", "dataframe", "ndarray", "list", "x_index", "x_shorter",
                "x_longer", "x_longer_front"]
-FH_FAULTS = ["dup", "dup_index", "dup_array", "dup_range", "empty", "frac", "frac_array", "str",
+FH_FAULTS = ["dup", "dup_index", "dup_array", "dup_range", "empty", "empty_fh", "empty_fh_array",
+             "frac", "frac_array", "str",
              "dict", "set", "series", "missing"]
 CONTEXTS = [(12, 0, "range"), (15, 5, "range"), (12, 3, "index")]
 FHS = [[1], [1, 3], [3, 5]]
@@ -104,6 +105,11 @@ def _bad_y(y, fault):
 
 
 def _bad_fh(fault):
+    if fault in ("empty_fh", "empty_fh_array"):
+        from sktime.forecasting.base import ForecastingHorizon
+
+        # an EMPTY horizon handed over as an already constructed ForecastingHorizon object
+        return ForecastingHorizon([] if fault == "empty_fh" else np.array([], dtype=int))
     return {"dup": [1, 1], "dup_index": pd.Index([1, 1, 3], dtype="int64"),
             "dup_array": np.array([2, 2]), "dup_range": pd.Index([2, 1, 2], dtype="int64"),
             "empty": [], "frac": [1.5], "frac_array": np.array([1.0, 2.5]), "str": "1",
@@ -144,7 +150,7 @@ def gen_cases(tier, seed):
                     yield dict(entry="splitter", splitter=sp, which="initial_le_window", ctx=ci,
                                fh=fhi)
                 for fault in ("dup", "dup_index", "dup_array", "frac", "frac_array", "str",
-                              "dict", "set", "series", "empty"):
+                              "dict", "set", "series", "empty", "empty_fh"):
                     yield dict(entry="splitter", splitter=sp, which="fh:" + fault, ctx=ci, fh=fhi)
                 for fault in ("unsorted", "reversed_range", "empty"):
                     yield dict(entry="splitter", splitter=sp, which="y:" + fault, ctx=ci, fh=fhi)
@@ -163,7 +169,8 @@ def gen_cases(tier, seed):
                         continue
                     yield dict(entry="composite", comp=comp, fault=fault, ctx=ci, fh=fhi)
             for which in ("y:unsorted", "y:reversed_range", "y:empty", "y:dataframe", "y:ndarray",
-                          "cv:int", "cv:kfold", "strategy", "scoring", "x_index", "x_longer",
+                          "cv:int", "cv:kfold", "strategy", "strategy:single-split", "scoring",
+                          "x_index", "x_longer",
                           "valid:x_equal_class", "valid:x_equal_name"):
                 yield dict(entry="evaluate", which=which, ctx=ci, fh=fhi)
             for which in ("y:unsorted", "y:dataframe", "y:ndarray", "cv:int", "grid:scalar",
@@ -171,6 +178,7 @@ def gen_cases(tier, seed):
                 for search in ("grid", "rand"):
                     yield dict(entry="tune", which=which, search=search, ctx=ci, fh=fhi)
             for which in ("fh+test_size", "fh+train_size", "fh:insample", "fh:dup", "fh:dup_index",
+                          "fh:empty_fh",
                           "fh:frac", "fh:str", "x_index", "x_longer"):
                 yield dict(entry="tts", which=which, ctx=ci, fh=fhi)
 
@@ -547,6 +555,12 @@ def _evaluate_cell(res, case, y, fh, nt):
         bkw["cv"] = KFold(2)
     elif which == "strategy":
         bkw["strategy"] = "foo"
+    elif which == "strategy:single-split":
+        from sktime.forecasting.model_selection import SingleWindowSplitter
+
+        kw["cv"] = SingleWindowSplitter(fh=fh, window_length=5)
+        bkw["cv"] = SingleWindowSplitter(fh=fh, window_length=5)
+        bkw["strategy"] = "foo"
     elif which == "scoring":
         bkw["scoring"] = "mape"
     elif which.startswith("valid:"):
@@ -566,7 +580,9 @@ def _evaluate_cell(res, case, y, fh, nt):
     good = call(lambda: evaluate(**kw))
     bad = call(lambda: evaluate(**bkw))
     f = bkw["forecaster"]
-    _judge(res, key, bad, good, None, nt)
+    # a rejected call must not leave the forecaster that was handed in fitted
+    _judge(res, key, bad, good, (lambda: bool(f.is_fitted)) if which.startswith("strategy") or
+           which.startswith("cv") or which == "scoring" else None, nt)
 
 
 def _tune_cell(res, case, y, fh, nt):
